@@ -439,6 +439,41 @@ def scan_source(path, src=None):
     return problems, calls
 
 
+def inventory_source(path, src=None):
+    """The other ways a run could depend on something that is not an input: calls of hash() / id()
+    outside a __hash__ method, directory listings, the clock, the pid, random numbers.  Returns a
+    list of 'file:line: what' (expected to be empty for the modules on the path to the GIR)."""
+    if src is None:
+        with open(path, encoding='utf-8') as f:
+            src = f.read()
+    tree = pyast.parse(src, path)
+    base = os.path.basename(path)
+    out = []
+
+    def visit(node, in_hash):
+        if isinstance(node, (pyast.FunctionDef, pyast.AsyncFunctionDef)):
+            in_hash = node.name == '__hash__'
+        if isinstance(node, pyast.Call):
+            f = node.func
+            if isinstance(f, pyast.Name) and f.id in ('hash', 'id') and not in_hash:
+                out.append('%s:%d: call of %s()' % (base, node.lineno, f.id))
+            elif isinstance(f, pyast.Attribute) and isinstance(f.value, pyast.Name):
+                q = '%s.%s' % (f.value.id, f.attr)
+                if q in ('os.listdir', 'os.scandir', 'os.walk', 'glob.glob', 'glob.iglob', 'time.time',
+                         'time.time_ns', 'time.monotonic', 'time.perf_counter', 'os.getpid', 'os.urandom',
+                         'os.times') or f.value.id in ('random', 'uuid', 'secrets'):
+                    out.append('%s:%d: call of %s()' % (base, node.lineno, q))
+        elif isinstance(node, (pyast.Import, pyast.ImportFrom)):
+            mod = getattr(node, 'module', None)
+            for a in node.names:
+                if a.name.split('.')[0] in ('random', 'uuid', 'secrets') or mod in ('random', 'uuid', 'secrets'):
+                    out.append('%s:%d: import of %s' % (base, node.lineno, mod or a.name))
+        for ch in pyast.iter_child_nodes(node):
+            visit(ch, in_hash)
+    visit(tree, False)
+    return out
+
+
 # ------------------------------------------------------------ exploration ---
 def deviations(n, full_upto=4):
     """Non-default permutations offered at a choice point of size n: all of them for
